@@ -41,6 +41,17 @@ def make(rng, sid):
         _, u, e, nm, sfx = p["call"]
         p["call"] = ("RD", u[1:], e[1:], nm, sfx)
         p["dirs"] = [u[1:], e[1:]]
+    # a left-over link whose target is gone among the consulted files: the callback is asked about it like about any other
+    dangling = None
+    if rng.random() < 0.2:
+        tv0 = trees.TreeView(t)
+        main0, drops0 = trees.consulted(tv0, p["dirs"], p["name"], p["dsfx"], p["postfixes"])
+        cand = [i for i, f in enumerate(t.files) if f[1] == "file" and any(trees.norm(f[0]) == trees.norm(d) for d in drops0)]
+        if cand:
+            i = rng.choice(cand)
+            f = t.files[i]
+            t.files[i] = (f[0], "link", rng.choice([b"/nonexistent/target", b"../gone/old.conf"]), None, None)
+            dangling = f[0]
     tv = trees.TreeView(t)
     main, drops = trees.consulted(tv, p["dirs"], p["name"], p["dsfx"], p["postfixes"])
     files = ([main] if main else []) + drops
@@ -57,10 +68,12 @@ def make(rng, sid):
     else:
         f = rng.choice(files)
         pol = "cb:suf:" + h(trees.basename(f) if rng.random() < 0.7 else f[-6:])
+    if dangling is not None and rng.random() < 0.6:
+        pol = "cb:suf:" + h(trees.basename(dangling))
     entry = None
     if p["call"][0] == "RD" and rng.random() < 0.5:
         entry = "RH"
-    s = Scenario(sid, {"p": p, "tree": t, "policy": pol, "consulted": files, "entry": entry or p["call"][0], "shape": shape})
+    s = Scenario(sid, {"p": p, "tree": t, "policy": pol, "consulted": files, "entry": entry or p["call"][0], "shape": shape, "dangling": dangling})
     t.emit(s)
     if nested:
         s.file(nested, b"allow=yes\nleaked_from_policy=1\n[A]\nk=policy\n")
@@ -117,10 +130,14 @@ def oracle(s, lines):
     # expected callback sequence: consulted files in processing order up to and including the first rejected one
     want = []
     rej_at = None
+    unreadable = None
     for k, f in enumerate(files):
         want.append(f)
         if rejected(m["policy"], k, f):
             rej_at = k
+            break
+        if m.get("dangling") is not None and trees.norm(f) == trees.norm(m["dangling"]):
+            unreadable = f        # accepted, but there is nothing to open: the read ends here with file-not-found
             break
     got = [unh(l.split()[1]) for l in cbs]
     if got != want:
@@ -159,6 +176,10 @@ def oracle(s, lines):
             if raws and not raws[0].null and raws[0].entries:
                 return "a configuration with %d entries is handed back after a rejection" % len(raws[0].entries)
         return None
+    if unreadable is not None:
+        if " E3" not in res:
+            return "the link %r (target missing) was accepted, result %r, expected file-not-found" % (unreadable, res)
+        return None
     # all accepted: same as the read without callback
     if not files:
         return None if " E3" in res else "no file, result %r" % res
@@ -185,4 +206,6 @@ def histogram(s, lines):
     res = next((l for l in lines if l.startswith(("rf ", "rc ", "rd ", "rh "))), "")
     ks.append("result_" + res.split()[1] if res else "noresult")
     ks.append("consulted_%d" % min(len(m["consulted"]), 8))
+    if m.get("dangling"):
+        ks.append("dangling_link_among_the_drop_ins")
     return ks
